@@ -41,6 +41,40 @@ def must_reject(v):
     return False
 
 
+def armor_lemmas(ctx, real, tag="R-08d"):
+    """bytes-level patterns used by split_gpg_and_payload on the encoded line: an accepted continuation line (and so every
+    line of a dumped multi-line value: record lines, license text lines ...) is never taken for an armor line or a separator"""
+    D = real.Deb822
+    # bytes-level patterns used by split_gpg_and_payload on the encoded line
+    try:
+        envb = rx.Env(is_bytes=True)
+        pb = {n: envb.add(getattr(D, n), name=n) for n in ("_gpgre", "_blank_line_whitespace", "_blank_line_no_whitespace")}
+        domb = envb.add(rb"[ \t][^\n\r\x0b\x0c]*", 0, "encoded continuation line (VT / FF are outside the stated domain)")
+        wsb = envb.add(rb"[ \t]+", 0, "ws-only")
+        envb.finalize()
+        CONTB = envb.lang(domb, "fullmatch")
+        NB = z3.Intersect(CONTB, z3.Complement(envb.lang(wsb, "fullmatch")))
+        smt, var = envb.claim_disjoint(CONTB, envb.lang(pb["_gpgre"], "match"))
+        def rep(pn):
+            return lambda m: {"line": repr(envb.realize(m.get("w", ""))), "pattern": pn,
+                              "confirmed": getattr(D, pn).match(envb.realize(m.get("w", ""))) is not None}
+        ctx.vc(tag + " an accepted continuation line is never a PGP armor line", MOD + ":Deb822._gpgre", smt, theory="str",
+               model_vars=[var], kind="rx", replay=rep("_gpgre"))
+        smt, var = envb.claim_disjoint(CONTB, envb.lang(pb["_blank_line_no_whitespace"], "match"))
+        ctx.vc(tag + " an accepted continuation line never ends the paragraph when whitespace does not separate paragraphs",
+               MOD + ":Deb822._blank_line_no_whitespace", smt, theory="str", model_vars=[var], kind="rx",
+               replay=rep("_blank_line_no_whitespace"))
+        smt, var = envb.claim_disjoint(NB, envb.lang(pb["_blank_line_whitespace"], "match"))
+        ctx.vc(tag + " a non-blank accepted continuation line never ends the paragraph under the default setting",
+               MOD + ":Deb822._blank_line_whitespace", smt, theory="str", model_vars=[var], kind="rx",
+               replay=rep("_blank_line_whitespace"))
+        for n in pb:
+            ctx.function_under_contract(MOD + ":Deb822." + n, repr(getattr(D, n).pattern))
+    except Unsupported as e:
+        ctx.mark_unproved(MOD + ":Deb822.split_gpg_and_payload", "unsupported: %s" % e)
+    ctx.solve()
+
+
 def lemmas(ctx, real):
     D = real.Deb822
     fq = MOD + ":Deb822.validate_input"
@@ -70,28 +104,7 @@ def lemmas(ctx, real):
         ctx.vc("probe: no accepted continuation line exists (must NOT be discharged)", fq, smt, theory="str", probe=True, kind="probe")
     except Unsupported as e:
         ctx.mark_unproved(fq, "unsupported: %s" % e)
-    # bytes-level patterns used by split_gpg_and_payload on the encoded line
-    try:
-        envb = rx.Env(is_bytes=True)
-        pb = {n: envb.add(getattr(D, n), name=n) for n in ("_gpgre", "_blank_line_whitespace", "_blank_line_no_whitespace")}
-        domb = envb.add(rb"[ \t][^\n\r\x0b\x0c]*", 0, "encoded continuation line (VT / FF are outside the stated domain)")
-        wsb = envb.add(rb"[ \t]+", 0, "ws-only")
-        envb.finalize()
-        CONTB = envb.lang(domb, "fullmatch")
-        NB = z3.Intersect(CONTB, z3.Complement(envb.lang(wsb, "fullmatch")))
-        smt, var = envb.claim_disjoint(CONTB, envb.lang(pb["_gpgre"], "match"))
-        ctx.vc("R-08d an accepted continuation line is never a PGP armor line", MOD + ":Deb822._gpgre", smt, theory="str",
-               model_vars=[var], kind="rx")
-        smt, var = envb.claim_disjoint(CONTB, envb.lang(pb["_blank_line_no_whitespace"], "match"))
-        ctx.vc("R-08d an accepted continuation line never ends the paragraph when whitespace does not separate paragraphs",
-               MOD + ":Deb822._blank_line_no_whitespace", smt, theory="str", model_vars=[var], kind="rx")
-        smt, var = envb.claim_disjoint(NB, envb.lang(pb["_blank_line_whitespace"], "match"))
-        ctx.vc("R-08d a non-blank accepted continuation line never ends the paragraph under the default setting",
-               MOD + ":Deb822._blank_line_whitespace", smt, theory="str", model_vars=[var], kind="rx")
-        for n in pb:
-            ctx.function_under_contract(MOD + ":Deb822." + n, repr(getattr(D, n).pattern))
-    except Unsupported as e:
-        ctx.mark_unproved(MOD + ":Deb822.split_gpg_and_payload", "unsupported: %s" % e)
+    armor_lemmas(ctx, real)
     ctx.solve()
 
 
@@ -181,6 +194,8 @@ def run(ctx):
     ctx.function_under_contract(MOD + ":Deb822.validate_input", mod.segment(node))
     lemmas(ctx, real)
     run_deductive(ctx)
+    from props import C02 as _c02
+    _c02.verify_split_gpg(ctx, real)       # the reader's line filter: nothing but matching lines is cut off or taken for armor
     rng = random.Random(ctx.seed)
     Deb822 = real.Deb822
     N = 5 if ctx.tier == "quick" else 6
@@ -268,7 +283,7 @@ def run(ctx):
                        "domain (SMT on the real pattern objects). ALSO PROVED from the AST: validate_input returns normally exactly on "
                        "values without trailing newline whose later lines (as str.splitlines sees them) are non-empty and start with a "
                        "whitespace character, and raises ValueError otherwise; Deb822.__setitem__ validates before it stores, so a "
-                       "rejected value leaves the paragraph exactly as it was. _dump_format and the parser loops are not under a "
+                       "rejected value leaves the paragraph exactly as it was; split_gpg_and_payload, from its real AST, returns exactly the lines (CR / LF stripped) as payload - nothing taken for armor, nothing cut off - for every sequence of lines none of which matches the armor pattern or the separator pattern in force (loop invariant over the line index; both parser settings). _dump_format and the field-collecting loop are not under a "
                        "contract: the composition validator -> dump -> parser is covered by the BOUNDED enumeration of all short values.")
     ctx.assumptions += ["character domain as stated in the property: Python-only whitespace / line boundaries (NBSP, VT, FF, "
                         "FS-US, NEL, U+2028 ...) are outside"]
